@@ -19,7 +19,7 @@ RULE = ('program = up to 10 primitives (left/right/forward/back/up/down/move_dis
 ASSUMPTIONS = ['virtual time: library processing takes zero time, so setpoint instants and integrals are exact (1e-9)',
                'programs keep the commanded altitude at or above the landing height (physical flights); for the MotionCommander '
                'an altitude of exactly 0 at land() is excluded (division by zero in down(0) needs measure-zero timing on a real clock)']
-REQUIRED = ['mon.mc_programs', 'mon.mc_exceptions_in_body', 'mon.mc_hover_setpoints', 'mon.mc_primitives_checked',
+REQUIRED = ['mon.hl_programs_dipping_below_the_origin', 'mon.mc_programs', 'mon.mc_exceptions_in_body', 'mon.mc_hover_setpoints', 'mon.mc_primitives_checked',
             'mon.hl_programs', 'mon.hl_goto_checked', 'mon.hl_exceptions_in_body', 'mon.quiet_after_landing',
             'mon.mc_consecutive_motions_with_same_vertical_velocity', 'mon.mc_statement_level_preemption_runs',
             'mon.mc_flights_ending_below_take_off_level', 'mon.mc_identical_velocity_commanded_again',
@@ -608,6 +608,15 @@ def run_hl(desc, ctx):
             prog.append(('down', z - lh, None) if rnd.random() < 0.5 else ('go_to', (rnd.uniform(-1, 1), rnd.uniform(-1, 1), lh), None))
         boom_at = rnd.choice((None, None, rnd.randint(0, len(prog))))
         wire = wrnd.choice((None, None, None, None, 10, 8, 7, 5))
+        drnd = random.Random(desc['seed'] * 31 + it)
+        if drnd.random() < 0.25:
+            # the origin of the positioning system need not be on the floor (a table top, a landing pad on a shelf): the
+            # flight dips below z = 0 next to it and comes back up
+            back = drnd.uniform(max(lh, 0.0) + 0.1, 2.0)
+            prog = prog + [('go_to', (drnd.uniform(-2, 2), drnd.uniform(-2, 2), -drnd.uniform(0.05, 1.0)), drnd.choice((None, 0.4))),
+                           ('go_to', (drnd.uniform(-2, 2), drnd.uniform(-2, 2), back), None)]
+            # (an exception in the body is raised before the dip or not at all: boom_at was drawn for the program without it)
+            ctx.count('mon.hl_programs_dipping_below_the_origin')
         cf = StubCf() if wire is None else WireCf(wire)
         E9 = 1e-9 if wire is None else 2e-6
         ob = {'exp': [], 'pos': None, 'escaped': None}
